@@ -17,7 +17,10 @@ DROP_CLAUSES = r"^(K\.st\.|K\.pairs|G\.|frame\.)"
 
 
 def specs(tier):
-    return [*g.core_terminals(), *g.stack_terminals(), *g.structure(), *g.backtracking(), *ops.bounded_repeat_specs(), *g.rules(), *g.trivia(), *g.entry()]
+    from . import templates as t
+
+    return [*g.core_terminals(), *g.stack_terminals(), *g.structure(), *g.backtracking(), *ops.bounded_repeat_specs(), *g.rules(), *g.trivia(), *g.entry(),
+            *t.all_templates(3 if tier == "quick" else 5)]
 
 from .groups import concretise_ops
 concretise = concretise_ops(PROPERTY)
